@@ -121,11 +121,97 @@ func (in *Interp) newJSONBlob(n *JNode) *Blob {
 // blobStr materialises the string term of a blob (opaque symbol for symbolic JSON blobs).
 func (in *Interp) blobStr(b *Blob) *Term {
 	if b.Str == nil {
+		in.ts.big[fmt.Sprintf("json#%d", b.ID)] = true
 		b.Str = in.ts.FreshSym(fmt.Sprintf("json#%d", b.ID), StrSort)
-		in.addPC(in.ts.ILe(in.ts.Int(2), in.ts.SLen(b.Str)))
+		in.addPC(in.ts.Eq(in.ts.SLen(b.Str), in.jsonLen(b.Node)))
 		in.blobs = append(in.blobs, b)
+		if in.blobOfStr == nil {
+			in.blobOfStr = map[*Term]*Blob{}
+		}
+		in.blobOfStr[b.Str] = b
 	}
 	return b.Str
+}
+
+// jsonLen: length of the JSON text of a tree as an Int term (exact for concrete parts and base64; bounded fresh
+// variables for decimal numbers, escaped symbolic strings and timestamps).
+func (in *Interp) jsonLen(n *JNode) *Term {
+	ts := in.ts
+	fresh := func(lo, hi *Term) *Term {
+		in.opq++
+		v := ts.FreshSym(fmt.Sprintf("jsonlen#%d", in.opq), IntSort)
+		in.addPC(ts.ILe(lo, v))
+		in.addPC(ts.ILe(v, hi))
+		return v
+	}
+	switch n.K {
+	case JNull:
+		return ts.Int(4)
+	case JBool:
+		if n.T.IsConst() {
+			if n.T.BoolVal() {
+				return ts.Int(4)
+			}
+			return ts.Int(5)
+		}
+		return ts.Ite(n.T, ts.Int(4), ts.Int(5))
+	case JNum:
+		if n.T == nil {
+			return ts.Int(int64(len(n.Text)))
+		}
+		if n.T.IsConst() {
+			b, _ := in.renderJSON(n)
+			return ts.Int(int64(len(b)))
+		}
+		return fresh(ts.Int(1), ts.Int(20))
+	case JStr:
+		if n.T.IsConst() {
+			if b, ok := in.renderJSON(n); ok {
+				return ts.Int(int64(len(b)))
+			}
+		}
+		l := ts.SLen(n.T)
+		if n.T.op == OApp && (n.T.s == "uuidstr" || n.T.s == "hex" || n.T.s == "b64" || n.T.s == "itoa" || n.T.s == "utoa") {
+			return ts.IAdd(l, ts.Int(2)) // these never contain characters that JSON escapes
+		}
+		six := ts.IAdd(ts.IAdd(ts.IAdd(l, l), ts.IAdd(l, l)), ts.IAdd(l, l))
+		return fresh(ts.IAdd(l, ts.Int(2)), ts.IAdd(six, ts.Int(2)))
+	case JTime:
+		return fresh(ts.Int(22), ts.Int(37))
+	case JBytes:
+		l := in.lineLen(n.Bytes)
+		if l.IsConst() {
+			return ts.Int(4*((l.i+2)/3) + 2)
+		}
+		// 4*ceil(l/3)+2 with an auxiliary variable q = ceil(l/3): 3q-2 <= l <= 3q
+		in.opq++
+		q := ts.FreshSym(fmt.Sprintf("b64q#%d", in.opq), IntSort)
+		q3 := ts.IAdd(q, ts.IAdd(q, q))
+		in.addPC(ts.ILe(ts.ISub(q3, ts.Int(2)), l))
+		in.addPC(ts.ILe(l, q3))
+		in.addPC(ts.ILe(ts.Int(0), q))
+		return ts.IAdd(ts.IAdd(ts.IAdd(q, q), ts.IAdd(q, q)), ts.Int(2))
+	case JArr:
+		r := ts.Int(2)
+		for i, e := range n.Elems {
+			if i > 0 {
+				r = ts.IAdd(r, ts.Int(1))
+			}
+			r = ts.IAdd(r, in.jsonLen(e))
+		}
+		return r
+	case JObj:
+		r := ts.Int(2)
+		for i := range n.Keys {
+			if i > 0 {
+				r = ts.IAdd(r, ts.Int(1))
+			}
+			r = ts.IAdd(r, ts.IAdd(in.jsonLen(&JNode{K: JStr, T: n.Keys[i]}), ts.Int(1)))
+			r = ts.IAdd(r, in.jsonLen(n.Vals[i]))
+		}
+		return r
+	}
+	return ts.Int(2)
 }
 
 func isByteSlice(t types.Type) bool {
